@@ -1,4 +1,5 @@
 """C03 State and operator arithmetic agrees with dense linear algebra in any gauge."""
+from vk.symx.harness import guarded
 import numpy as np
 
 from vk.rtc.harness import run_cases
@@ -86,6 +87,11 @@ def worker(case, led):
                 ka, kb = int(rng.integers(n)), int(rng.integers(n))
                 a = S.apply_gauge(a0, ga, ka)
                 b = S.apply_gauge(b0, gb, kb)
+                if (ka + 2 * kb + len(ga)) % 3 == 0 and hasattr(a, "coeff"):
+                    # part of the vector carried by the scalar prefactor: sums and distances fold it into the tensors
+                    a.coeff, b.coeff = a.coeff * 0.7, b.coeff * (-1.3)
+                bra = b.conj()                    # derived BEFORE the arithmetic below; must keep its value
+                dbra = S.dense(bra)
                 da, db = S.dense(a), S.dense(b)
                 key = (name, n, str(q), ga, gb)
                 nontriv = n >= 2 and (a.qnidx != b.qnidx or a.to_right != b.to_right or max(a.bond_dims) > 1)
@@ -94,7 +100,18 @@ def worker(case, led):
                        "how": "vk.specs.chain.model_zoo/random_mps/apply_gauge regenerate the operands from these coordinates"}
                 fields = {"same_centre": bool(a.qnidx == b.qnidx), "nsites": n}
                 # ---- add / sub
-                for opname, f, ref in (("add", lambda: a.add(b), da + db), ("sub", lambda: a - b, da - db)):
+                for opname, f, ref in (("add", lambda: a.add(b), da + db), ("sub", lambda: a - b, da - db), ("distance", None, None)):
+                    if opname == "distance":
+                        if hasattr(a, "distance") and a.qnidx == b.qnidx and np.all(np.asarray(a.qntot) == np.asarray(b.qntot)):
+                            try:
+                                dist = a.distance(b)
+                                led.check(abs(dist - np.linalg.norm(da - db)) <= 1e-8 * max(1.0, np.linalg.norm(da) + np.linalg.norm(db)), "post:Mps.distance:dense_norm_of_difference",
+                                          "Mps.distance", f"{dist} vs {np.linalg.norm(da - db)}", key + ("distance",), fields, rep)
+                            except Exception as e:
+                                led.ok("skipped:Mps.distance:raised", "Mps.distance", key + ("distance", type(e).__name__), nontrivial=False)
+                        led.check(close(S.dense(bra), dbra) and close(S.dense(a), da) and close(S.dense(b), db), "frame:MatrixProduct.add:operands_and_previously_derived_objects",
+                                  "MatrixProduct.add", "after add / sub / distance an operand or the bra b.conj() taken before them changed its value", key + ("bra-frame",), fields, rep)
+                        continue
                     fn = "MatrixProduct.add" if opname == "add" else "MatrixProduct.__sub__"
                     r = f()
                     if sdense(r) is None:
@@ -157,6 +174,20 @@ def worker(case, led):
                 key = (name, n, str(q), ga, "H")
                 rep = {"model": name, "nsites": n, "sector": q, "gauge_a": ga, "a": describe(a), "terms": [repr(t) for t in terms], "seed": seed}
                 fields = {"nsites": n}
+                # the operator itself in other gauges (qn centre moved by one canonicalise / by a lossless compress): the image must not depend on it
+                for hg in ("cano", "compress", "center"):
+                    try:
+                        Hg = S.apply_gauge(H, hg, int(rng.integers(n)))
+                    except Exception as e:
+                        led.ok("skipped:Mpo.apply:operator_gauge_raised", "Mpo.apply", key + ("hg", hg, type(e).__name__), nontrivial=False)
+                        continue
+                    rg = Hg.apply(a)
+                    okg = close(S.dense(rg), Hd @ da) and not S.qnv_violations(rg)
+                    for how, r2 in (lossless_variants(rg) if okg else []):
+                        okg = okg and close(S.dense(r2), Hd @ da)
+                    led.check(okg, "post:Mpo.apply:independent_of_the_operator_gauge", "Mpo.apply",
+                              f"operator with qnidx={Hg.qnidx}, to_right={Hg.to_right} ({hg}): image wrong, mislabelled ({S.qnv_violations(rg)[:1]}) or wrong after canonicalise",
+                              key + ("apply-hg", hg), dict(fields, operator_gauge=hg), dict(rep, operator_gauge=hg, operator_qnidx=int(Hg.qnidx)))
                 r = H.apply(a)
                 led.check(close(S.dense(r), Hd @ da), "post:Mpo.apply:dense_product", "Mpo.apply", "dense(H|a>) != dense(H) dense(a)",
                           key + ("apply",), fields, rep)
@@ -235,7 +266,7 @@ def worker(case, led):
 def check(run):
     from props import C03_proof, C03_sym
     C03_proof.prove(run)
-    C03_sym.prove(run)
+    guarded(run, C03_sym.prove)
     seeds = [run.seed] if run.tier == "quick" else [run.seed, run.seed + 1, run.seed + 2]
     cases = [(name, n, s, run.tier) for name, n in U.chain_cases(run.tier, run.seed) for s in seeds]
     run_cases(run, worker, cases)
